@@ -43,7 +43,7 @@ class C07(Check):
     ASSUMPTIONS = ['timestamps are non-decreasing per key; timeouts are >= 0 (a zero timeout makes every item open a new window, as the statement says)',
                    'closing_mapper returns a bool']
     ANCHORS = ['rxsci/data/time_split.py', 'rxsci/operators/multiplex.py']
-    REQUIRED_TAGS = ['top', 'group', 'active', 'inactive', 'no-timeout', 'closing', 'include', 'exclude', 'datetime', 'equal-timestamps', 'gap=timeout', 'day-scale', 'zero-timeout'] + PRELUDE_TAGS
+    REQUIRED_TAGS = ['top', 'group', 'active', 'inactive', 'no-timeout', 'closing', 'include', 'exclude', 'datetime', 'equal-timestamps', 'gap=timeout', 'day-scale', 'zero-timeout', 'aware-datetimes-mixed-offsets'] + PRELUDE_TAGS
     REQUIRED_OBSERVED = ['child_lifetimes_checked', 'parent_lifetimes_checked', 'empty_windows_dropped']
 
     def generate(self, rng, tier, shard, nshards):
@@ -91,7 +91,7 @@ class C07(Check):
                 t += rng.choice(alpha)
                 items.append(t)
             cfg = {'active': a, 'inactive': b, 'closing': rng.choice([None, 'modeq:3:0', 'modeq:2:1', 'true', 'modeq:7:0']),
-                   'include': rng.random() < 0.5, 'time': rng.choice(['id', 'dt'])}
+                   'include': rng.random() < 0.5, 'time': rng.choice(['id', 'dt', 'dtz'])}
             yield {'cfg': cfg, 'parent': name, 'parent_node': windows.PARENTS[name](rng), 'items': items}
 
     def evaluate(self, case):
@@ -108,7 +108,9 @@ class C07(Check):
             out.tags.append('zero-timeout')       # a timeout of zero is not 'no timeout': every item opens its own window
         if cfg['closing']:
             out.tags += ['closing', 'include' if cfg['include'] else 'exclude']
-        if cfg.get('time') == 'dt':
+        if cfg.get('time') == 'dtz':
+            out.tags.append('aware-datetimes-mixed-offsets')
+        if cfg.get('time') in ('dt', 'dtz'):
             out.tags.append('datetime')
         if (cfg['active'] or 0) >= 86400 or (cfg['inactive'] or 0) >= 86400 or (items and items[-1] - items[0] >= 86400):
             out.tags.append('day-scale')
